@@ -2273,6 +2273,7 @@ class Body:
         learn = None
         val_id = None
         relate = None
+        arm_vals = None
         if t["k"] == "switch":
             p_ = op_place(t["discr"])
             if p_ is not None and not p_[1] and (p_[0], ()) not in d:
@@ -2298,6 +2299,17 @@ class Body:
                 if ne_:
                     keep = [tb for v_, tb in t["arms"] if (int(v_) if isinstance(v_, str) else v_) not in ne_]
                     succs = list(dict.fromkeys(keep + [t["otherwise"]]))
+                # ... and a match on an integer says which one it is on each arm (`match tag { UPDATE => .., REMOVE | CLEAR => .. }; if tag == CLEAR ..`)
+                if relate is None and p_[0] < len(self.locals) and self.locals[p_[0]] in ("u8", "u16", "u32", "u64", "usize", "i8", "i16", "i32", "i64", "isize", "char"):
+                    by_t = defaultdict(list)
+                    for v_, tb in t["arms"]:
+                        by_t[tb].append(int(v_) if isinstance(v_, str) else v_)
+                    # the matched local is usually a fresh copy of the named value
+                    xs = [p_[0]]
+                    for s2 in self.stmts(b):
+                        if s2[0] == "A" and s2[1] == [xs[-1], []] and s2[2][0] == "use" and s2[2][1][0] in ("c", "m") and not s2[2][1][1][1]:
+                            xs.append(s2[2][1][1][0])
+                    arm_vals = (xs, {tb: vs[0] for tb, vs in by_t.items() if len(vs) == 1 and tb != t["otherwise"]}, sorted({v for vs in by_t.values() for v in vs}), t["otherwise"])
             if p_ is not None and not p_[1] and (p_[0], ()) in d:
                 val = d[(p_[0], ())]
                 if isinstance(val, tuple) and val and val[0] == "sym":
@@ -2326,6 +2338,14 @@ class Body:
             if learn is not None and s_ in learn:
                 d2 = dict(d)
                 d2[("K", val_id)] = learn[s_]
+                out.append((s_, frozenset(d2.items())))
+            elif arm_vals is not None and (s_ in arm_vals[1] or s_ == arm_vals[3]):
+                d2 = dict(d)
+                for x_ in arm_vals[0]:
+                    if s_ in arm_vals[1]:
+                        d2[(x_, ())] = arm_vals[1][s_]
+                    else:
+                        d2[(x_, ("#ne",))] = tuple(sorted(set(d2.get((x_, ("#ne",)), ())) | set(arm_vals[2])))
                 out.append((s_, frozenset(d2.items())))
             elif relate is not None and relate[3] != relate[4] and s_ in (relate[3], relate[4]):
                 xs, kv, is_eq, f_edge, t_edge = relate
